@@ -73,8 +73,13 @@ func (id ID) ExtractPublicKey() (crypto.PubKey, error) {
 // IDFromBytes casts a byte slice to the ID type and validates that
 // the value is a well-formed multihash.
 func IDFromBytes(b []byte) (ID, error) {
-	if _, _, err := decodeMultihash(b); err != nil {
+	code, _, err := decodeMultihash(b)
+	if err != nil {
 		return "", err
+	}
+	// peer IDs always use the IDENTITY multihash (the embedded public key).
+	if code != mhIdentity {
+		return "", errors.Errorf("peer id multihash code %d is not the identity function", code)
 	}
 	return ID(b), nil
 }
